@@ -1,9 +1,9 @@
 SPECIFICATION PSpec
 CONSTANTS
-  SrcSet <- SrcB
+  SrcSet <- SrcB2
   GateSet <- GatesB
-  OpSet <- OpsBs
-  TermSet <- TermsB
+  OpSet <- OpsBx
+  TermSet <- TermsC
   MaxOps = 1
   Stream = TRUE
 INVARIANTS Agree ResStable HeadBound Causal CloseOrder NoStuck
